@@ -195,3 +195,60 @@ def returns_of (fnode):
 
 def is_generator (fnode):
   return any(isinstance(n, (ast.Yield, ast.YieldFrom)) for n in walk_no_nested(fnode))
+
+# ---------------------------------------------------------------------------
+# tiny linear view of index expressions: value = <base> + const
+
+def linear (e, fnode=None, _depth=0):
+  """(base_text, offset) for expressions of the form base, base+k, base-k,
+  k+base; local names with exactly one definition of that form are followed.
+  base_text None for pure constants."""
+  if isinstance(e, ast.Constant) and isinstance(e.value, int) and not isinstance(e.value, bool):
+    return (None, e.value)
+  if isinstance(e, ast.UnaryOp) and isinstance(e.op, ast.USub):
+    b, k = linear(e.operand, fnode, _depth)
+    if b is None: return (None, -k)
+  if isinstance(e, ast.BinOp) and isinstance(e.op, (ast.Add, ast.Sub)):
+    lb, lk = linear(e.left, fnode, _depth); rb, rk = linear(e.right, fnode, _depth)
+    sign = 1 if isinstance(e.op, ast.Add) else -1
+    if rb is None: return (lb, lk + sign * rk)
+    if lb is None and sign == 1: return (rb, lk + rk)
+  if isinstance(e, ast.Name) and fnode is not None and _depth < 4:
+    d = reaching_assign(fnode, e.id)
+    if len(d) == 1 and d[0][2] == 'assign' and d[0][0] is not None and not mentions_name(d[0][0], e.id):
+      b, k = linear(d[0][0], fnode, _depth + 1)
+      if b is not None and _is_simple_linear(d[0][0]): return (b, k)
+  return (norm(e), 0)
+
+def _is_simple_linear (e):
+  if isinstance(e, (ast.Name, ast.Attribute)): return True
+  if isinstance(e, ast.BinOp) and isinstance(e.op, (ast.Add, ast.Sub)):
+    return _is_simple_linear(e.left) and isinstance(e.right, ast.Constant) or \
+           (isinstance(e.left, ast.Constant) and _is_simple_linear(e.right) and isinstance(e.op, ast.Add))
+  return False
+
+def bounds_from_facts (facts, base, fnode=None):
+  """From guard facts derive for expression `base` (text): (lower_const,
+  [(upper_text, strict_offset)]) such that base >= lower_const and
+  base < upper_text + strict_offset.  Only facts whose one side is linear in
+  `base` are used."""
+  lower = None; uppers = []
+  for l, o, r, b in facts:
+    if r is None or o not in ('<', '<=', '>', '>=', '=='): continue
+    lb, lk = linear(l, fnode); rb, rk = linear(r, fnode)
+    # normalise to: base OP other + k
+    if lb == base and rb != base:
+      op = o; ob, k = rb, rk - lk
+    elif rb == base and lb != base:
+      op = flip(o); ob, k = lb, lk - rk
+    else: continue
+    if ob is None:      # constant bound
+      if op == '>=': lower = k if lower is None else max(lower, k)
+      elif op == '>': lower = k + 1 if lower is None else max(lower, k + 1)
+      elif op == '==': lower = k if lower is None else max(lower, k)
+      if op == '<': uppers.append((None, k))
+      elif op == '<=': uppers.append((None, k + 1))
+    else:
+      if op == '<': uppers.append((ob, k))
+      elif op == '<=': uppers.append((ob, k + 1))
+  return lower, uppers
